@@ -617,8 +617,11 @@ impl LinkCongestionState {
         let sane_observed = (observed_bps as f64).min(CC_OUTLIER_FACTOR * baseline) as u64;
 
         // First non-bootstrap tick: seed the target from observed throughput
-        // (or a conservative floor if no traffic yet).
-        if self.target_bps == MIN_TARGET_BPS {
+        // (or a conservative floor if no traffic yet). Keyed on the previous
+        // state, not on the target sitting at the floor: a target that drains
+        // or backs off down to `MIN_TARGET_BPS` later must not be re-seeded
+        // (a 10x jump on the next tick).
+        if self.state == CcState::Bootstrap {
             let seed = sane_observed.max(INITIAL_TARGET_BPS);
             self.target_bps = seed.clamp(MIN_TARGET_BPS, MAX_TARGET_BPS);
         }
